@@ -336,6 +336,106 @@ fn to_replay(run: &Run, n: u32, nworkers: usize) -> Value {
     rj
 }
 
+// ----------------------------------------------------- the real example binary
+
+/// Worker counts of the machine batch (the example runs with n+1 fake CPUs).
+fn machine_plan(quick: bool) -> Vec<u32> {
+    let mut v: Vec<u32> = (1..=24).collect();
+    v.extend([27, 31, 32, 33, 47, 48, 63, 64, 100, 128, 255, 256, 511, 1023]);
+    if !quick {
+        v.extend(25..=200);
+        v.extend([300, 400, 512, 600, 700, 777, 800, 900, 1000, 1022]);
+    }
+    v
+}
+
+const RANGE_POOL: [&str; 16] = [
+    "AsKs", "QdQc", "JJ", "AKs", "T9s:0.5", "77-66", "AhKd:0.25", "22", "A5s-A4s", "KQo:0.5", "9c8c", "TT:0.75", "AQs+", "5h4h", "KJs:0", "8d8c",
+];
+const BOARD_POOL: [&str; 8] = ["7h8h9c", "AsAh2c", "KhKdKc", "2h3d4c", "QsJsTs", "9d5c2h", "AcKcQc", "6s6d7h"];
+
+fn run_example(bin: &str, ncpus: Option<u32>, board: &str, ranges: &[String]) -> Result<(u64, BTreeMap<String, f64>), String> {
+    let mut cmd = std::process::Command::new(bin);
+    cmd.arg(board).args(ranges).stderr(std::process::Stdio::null());
+    if let Some(k) = ncpus {
+        let so = std::env::var("FAKECPUS_SO").map_err(|_| "FAKECPUS_SO not set (run through ./check)".to_string())?;
+        cmd.env("LD_PRELOAD", so).env("FAKE_NCPUS", k.to_string());
+    }
+    let out = cmd.output().map_err(|e| format!("{bin}: {e}"))?;
+    let text = String::from_utf8_lossy(&out.stdout);
+    if !out.status.success() {
+        return Err(format!("exited with {}", out.status));
+    }
+    let mut mat: Option<u64> = None;
+    let mut eq: BTreeMap<String, f64> = BTreeMap::new();
+    for l in text.lines() {
+        if let Some(rest) = l.strip_prefix("materialized: ") {
+            mat = rest.split(' ').next().and_then(|x| x.parse().ok());
+        } else if mat.is_some() {
+            if let Some((c, p)) = l.split_once(": ") {
+                if let Some(p) = p.strip_suffix('%') {
+                    if let Ok(x) = p.parse::<f64>() {
+                        // both players may hold the same combo: key by occurrence
+                        let mut key = c.to_string();
+                        while eq.contains_key(&key) {
+                            key.push('\'');
+                        }
+                        eq.insert(key, x);
+                    }
+                }
+            }
+        }
+    }
+    mat.map(|m| (m, eq)).ok_or_else(|| "no 'materialized:' line in the output".to_string())
+}
+
+/// The unmodified multi-thread example on a machine with n+1 CPUs (LD_PRELOAD
+/// shim) against the unmodified single-thread example, same arguments.
+fn machine_case(n: u32, board: &str, ranges: &[String]) -> Result<Option<(String, String)>, String> {
+    let multi = std::env::var("EX_MULTI").map_err(|_| "EX_MULTI not set (run through ./check)".to_string())?;
+    let single = std::env::var("EX_SINGLE").map_err(|_| "EX_SINGLE not set".to_string())?;
+    let (sm, se) = match run_example(&single, None, board, ranges) {
+        Ok(x) => x,
+        Err(_) => return Ok(None), // the single-threaded run itself fails on this input: not C16's business
+    };
+    match run_example(&multi, Some(n + 1), board, ranges) {
+        Err(e) => Ok(Some(("machine_example_failed".into(), format!("multi-thread example on {} CPUs ({n} workers): {e}", n + 1)))),
+        Ok((mm, me)) => {
+            if mm != sm {
+                return Ok(Some((
+                    "machine_materialized".into(),
+                    format!("multi-thread example on {} CPUs ({n} workers) materialised {mm} showdowns, the single-thread example {sm}", n + 1),
+                )));
+            }
+            // equities are f64 sums printed with three decimals: equal up to the last printed digit
+            let mut se_sorted: Vec<f64> = se.values().cloned().collect();
+            let mut me_sorted: Vec<f64> = me.values().cloned().collect();
+            se_sorted.sort_by(|a, b| a.partial_cmp(b).unwrap());
+            me_sorted.sort_by(|a, b| a.partial_cmp(b).unwrap());
+            if se_sorted.len() != me_sorted.len() || se_sorted.iter().zip(me_sorted.iter()).any(|(a, b)| (a - b).abs() > 0.0011) {
+                return Ok(Some((
+                    "machine_equity".into(),
+                    format!("multi-thread example on {} CPUs ({n} workers) prints equities {:?}, the single-thread example {:?}", n + 1, me, se),
+                )));
+            }
+            Ok(None)
+        }
+    }
+}
+
+fn machine_inputs(seed: u64) -> (String, Vec<String>) {
+    let mut rng = Rng::new(seed);
+    let board = BOARD_POOL[rng.usize_below(BOARD_POOL.len())].to_string();
+    let np = rng.range(1, 3) as usize;
+    let ranges: Vec<String> = (0..np)
+        .map(|_| {
+            let k = rng.range(1, 2);
+            (0..k).map(|_| RANGE_POOL[rng.usize_below(RANGE_POOL.len())].to_string()).collect::<Vec<_>>().join(",")
+        })
+        .collect();
+    (board, ranges)
+}
+
 /// Worker counts of the native batch: real threads, as the example spawns them.
 fn native_plan(quick: bool) -> Vec<u32> {
     let mut v: Vec<u32> = vec![2, 3, 4, 5, 8, 12, 16, 17, 18, 24, 32, 33, 48, 64];
@@ -419,6 +519,40 @@ fn native_case(n: u32, seed: u64) -> Option<(String, String, Value)> {
 
 pub fn case(batch: &str, tier: &str, i: u64) -> CaseOut {
     let vs = verif_seed();
+    if batch == "machine" {
+        let plan = machine_plan(tier == "quick");
+        let n = plan[i as usize % plan.len()];
+        let seed = run_seed(vs, "C16", "machine", i);
+        let (board, ranges) = machine_inputs(seed);
+        let mut out = CaseOut { index: i, seed, evals: 1, ..Default::default() };
+        *out.probes.entry("real_example_runs_under_fake_cpu_count".into()).or_insert(0) += 1;
+        *out.faults.entry("cpu_count".into()).or_insert(0) += 1;
+        if n > 16 {
+            *out.probes.entry("real_example_runs_with_more_workers_than_this_sandbox_has_cores".into()).or_insert(0) += 1;
+        }
+        let mut f = Fold::new();
+        f.add(n as u64);
+        f.add_str(&board);
+        for r in &ranges {
+            f.add_str(r);
+        }
+        out.distinct.push(f.get());
+        out.log = f.get();
+        if n % 9 == 0 {
+            out.sample = Some(json!({"machine_cpus": n + 1, "workers": n, "argv": [board, ranges]}));
+        }
+        match machine_case(n, &board, &ranges) {
+            Ok(None) => {}
+            Ok(Some((k, d))) => {
+                out.violation = Some((k, format!("{board} {:?}: {d}", ranges), json!({"kind":"c16_machine","n":n,"board":board,"ranges":ranges})));
+            }
+            Err(e) => {
+                eprintln!("HARNESS ERROR: {e}");
+                std::process::exit(2);
+            }
+        }
+        return out;
+    }
     if batch == "native" {
         let plan = native_plan(tier == "quick");
         let n = plan[i as usize % plan.len()];
@@ -489,6 +623,18 @@ pub fn eval(v: &Value) -> Option<(String, String)> {
                 Err(m) => Some(("tiling:panic".into(), m)),
             }
         }
+        "c16_machine" => {
+            let n = v["n"].as_u64().unwrap_or(1) as u32;
+            let board = v["board"].as_str()?.to_string();
+            let ranges: Vec<String> = v["ranges"].as_array()?.iter().filter_map(|x| x.as_str().map(|s| s.to_string())).collect();
+            match machine_case(n, &board, &ranges) {
+                Ok(x) => x,
+                Err(e) => {
+                    eprintln!("HARNESS ERROR: {e}");
+                    std::process::exit(2);
+                }
+            }
+        }
         "c16_native" => {
             let n = v["n"].as_u64().unwrap_or(2) as u32;
             let seed: u64 = v["seed"].as_str()?.parse().ok()?;
@@ -522,6 +668,45 @@ pub fn eval(v: &Value) -> Option<(String, String)> {
 fn minimise_json(replay: &Value, _okey: &str, pred: &dyn Fn(&Value) -> bool) -> (Value, usize) {
     if replay["kind"].as_str() == Some("c16_native") {
         return (replay.clone(), 0);
+    }
+    if replay["kind"].as_str() == Some("c16_machine") {
+        // fewer players, then single ranges, while the same oracle fires
+        let mut best = replay.clone();
+        let mut tried = 0usize;
+        loop {
+            let ranges: Vec<String> = best["ranges"].as_array().map(|a| a.iter().filter_map(|x| x.as_str().map(|s| s.to_string())).collect()).unwrap_or_default();
+            let mut improved = false;
+            for i in 0..ranges.len() {
+                if ranges.len() > 1 {
+                    let mut r2 = ranges.clone();
+                    r2.remove(i);
+                    let mut c = best.clone();
+                    c["ranges"] = json!(r2);
+                    tried += 1;
+                    if pred(&c) {
+                        best = c;
+                        improved = true;
+                        break;
+                    }
+                }
+                if let Some((a, _)) = ranges[i].split_once(',') {
+                    let mut r2 = ranges.clone();
+                    r2[i] = a.to_string();
+                    let mut c = best.clone();
+                    c["ranges"] = json!(r2);
+                    tried += 1;
+                    if pred(&c) {
+                        best = c;
+                        improved = true;
+                        break;
+                    }
+                }
+            }
+            if !improved || tried > 20 {
+                break;
+            }
+        }
+        return (best, tried);
     }
     let Ok(run) = Run::from_json(replay) else { return (replay.clone(), 0) };
     let n = replay["n"].as_u64().unwrap_or(0) as u32;
@@ -674,6 +859,30 @@ pub fn run(tier: &str) -> i32 {
             }
         }
     }
+    // the real example binaries on simulated machines (LD_PRELOAD CPU-count shim)
+    {
+        let nm = machine_plan(quick).len() as u64;
+        let chunks = run_batch("C16", "machine", nm, 4, tier, false);
+        for (ci, ch) in chunks.iter().enumerate() {
+            let chunk_first = ci as u64 * 4;
+            for c in &ch.cases {
+                ev.merge_case(c);
+                logfold.add(c.log);
+                if let Some(sm) = &c.sample {
+                    if ev.samples.len() < 12 {
+                        ev.sample(sm.clone());
+                    }
+                }
+                if c.violation.is_some() {
+                    if ev.violations.iter().filter(|v| v.oracle.starts_with("machine")).count() < 2 {
+                        ev.violations.push(settle_violation("C16", "machine", tier, false, chunk_first, c, &minimise_json, &key_json));
+                    } else {
+                        ev.probe("further_violations_not_minimised", 1);
+                    }
+                }
+            }
+        }
+    }
     // native supplement: the example's n real threads, concurrently
     {
         let nn = native_plan(quick).len() as u64;
@@ -701,7 +910,8 @@ pub fn run(tier: &str) -> i32 {
     ev.extra.insert("event_log_digest".into(), json!(format!("{:016x}", logfold.get())));
     ev.extra.insert("components".into(), json!({
         "real": ["examples/multi-thread/scope.rs::calculate_scopes", "FlopExhaustiveEvaluator::{new,scope,into_iter}", "iterator next()", "Showdown", "MadeHand", "HandRange collect/clone"],
-        "stub": ["examples/multi-thread/main.rs coordinator (spawn/join/merge) re-modelled by the simulator"],
+        "stub": ["examples/multi-thread/main.rs coordinator (spawn/join/merge) re-modelled by the simulator in the conservation batch"],
+        "real_binaries": ["examples/multi-thread (unmodified, under the LD_PRELOAD shim machine/fakecpus.c faking 2..1024 CPUs) vs examples/single-thread, same argv, in the machine batch"],
         "simulated": ["cpu count n+1", "thread schedule", "worker crash/restart/duplicate"],
     }));
     ev.extra.insert("inventory_shared_state".into(), json!(inventory()));
@@ -713,7 +923,7 @@ pub fn replay(v: &Value) -> Option<(String, String)> {
     match r["kind"].as_str().unwrap_or("") {
         "chunk" => replay_chunk("C16", r),
         "c16_tiling" => eval(r).map(|(k, d)| (format!("{k}:n={}", r["n"].as_u64().unwrap_or(0)), d)),
-        "c16_conservation" | "c16_native" => eval_in_child("C16", r, false).map(|(k, d)| (key_json(&k, r), d)),
+        "c16_conservation" | "c16_native" | "c16_machine" => eval_in_child("C16", r, false).map(|(k, d)| (key_json(&k, r), d)),
         _ => None,
     }
 }
